@@ -198,6 +198,7 @@ func c03One(c *ev.Ctx, cs ev.Case, feat *featAgg) {
 				pc++
 			}
 		}
+		feat.add("groups_all_single_symbol_green_is_cache_index", f.TrivialCacheGroups)
 		feat.add("backrefs", f.BackRefs)
 		feat.add("cache_hits", f.CacheHits)
 		feat.add("overlapping_copies", f.Overlaps)
